@@ -1156,6 +1156,41 @@ func (rn *Runner) SizeFieldBoundaryCases() {
 	}
 }
 
+// ShortUDTCases: UDT values that stop early (written before fields were added to the type) decoded into struct
+// targets, tagged and untagged, at top level and as a list element: every prefix of the components. Each decode is
+// a correspondence case and is repeated into a destination holding an earlier value (DestinationState), so the
+// "remaining fields are null" rule is exercised on every run and not only when the random stream draws one.
+func (rn *Runner) ShortUDTCases() {
+	i32 := Native(gocql.TypeInt)
+	text := Native(gocql.TypeVarchar)
+	blob := Native(gocql.TypeBlob)
+	ut := &Ty{K: "udt", Es: []*Ty{i32, text, blob}, Names: []string{"a", "b", "c"}}
+	comps := [][]byte{{0, 0, 0, 4, 0, 0, 0, 7}, {0, 0, 0, 2, 'h', 'i'}, {0, 0, 0, 3, 1, 2, 3}}
+	tagged := TStruct([]string{"G0", "G1", "G2"}, []string{"a", "b", "c"}, []*GTy{TInt(IInt, false), TK("str"), TK("bytes")})
+	byName := TStruct([]string{"A", "B", "C"}, []string{"", "", ""}, []*GTy{TInt(IInt, false), TK("str"), TK("bytes")})
+	ptrs := TStruct([]string{"G0", "G1", "G2"}, []string{"a", "b", "c"}, []*GTy{TPtr(TInt(IInt, false)), TPtr(TK("str")), TPtr(TK("bytes"))})
+	utn := &Ty{K: "udt", Es: []*Ty{i32, text, blob}, Names: []string{"A", "B", "C"}}
+	for _, pv := range []int{2, 3, 4} {
+		for n := 1; n <= 3; n++ {
+			var d []byte
+			for _, c := range comps[:n] {
+				d = append(d, c...)
+			}
+			rn.DecodeCase("unmarshal-udt-stops-early", pv, ut, d, tagged, nil, false, false, "")
+			rn.DecodeCase("unmarshal-udt-stops-early", pv, ut, d, ptrs, nil, false, false, "")
+			rn.DecodeCase("unmarshal-udt-stops-early", pv, utn, d, byName, nil, false, false, "")
+			// as the only element of a list
+			var l []byte
+			if pv <= 2 {
+				l = []byte{0, 1, 0, byte(len(d))}
+			} else {
+				l = []byte{0, 0, 0, 1, 0, 0, 0, byte(len(d))}
+			}
+			rn.DecodeCase("unmarshal-udt-stops-early", pv, &Ty{K: "list", E: ut}, append(l, d...), TSlice(tagged), nil, false, false, "")
+		}
+	}
+}
+
 // destKey: a decoded value up to the one documented dependence on the destination: a non-nil []byte buffer
 // is reused, so an empty value stays an empty non-nil slice instead of nil
 func destKey(v *Val) string {
